@@ -561,6 +561,12 @@ class EvalMixin(object):
                 return ClassRef(o.cls)
             if attr == '__dict__' and not o.symbolic:
                 return o.fields
+            if o.symbolic and not o.exact and o.cls is not None:
+                # a def method that only subclasses define (dynamic attribute lookup on an object of unknown subclass)
+                for sc in self.program.subclasses(o.cls.name):
+                    f = sc.methods.get(attr)
+                    if f is not None:
+                        return BoundMethod(o, f)
             if o.symbolic:
                 raise Unsupported('field %s.%s has no declared type (line %s)' % (o.clsname, attr, line))
             self.raise_exc('AttributeError', "%s has no attribute %s" % (o.clsname, attr), line)
@@ -636,6 +642,13 @@ class EvalMixin(object):
         raise Unsupported('%s must be concrete, got %r' % (what, x))
 
     def index_value(self, base, i, line=0):
+        if isinstance(base, T) and isinstance(base.sort, tuple):
+            if isinstance(i, tuple):
+                t = base
+                for x in i:
+                    t = tm.select(t, to_term(x))
+                return t
+            return tm.select(base, to_term(i))
         if isinstance(base, PtrTo):
             if self.concrete_int(i, 'pointer dereference index') != 0:
                 raise Unsupported('pointer arithmetic on a pointer to a single object')
